@@ -170,7 +170,9 @@ def run(ctx):
                 if mis:
                     ctx.fail("cli-passthrough-misaligned", {"form": "cli", "inputs": inputs}, {"misaligned": mis[:3]})
                 elif err is None and len(got) != len(inputs):
-                    ctx.fail("cli-rows-lost", {"form": "cli", "inputs": inputs}, {"rows": len(got)})
+                    # a dropped LAST row shifts nothing: it is the known mechanism (unparsable side) seen through the CLI
+                    dropped_known = any(isinstance(x, str) and x.count(">>") == 1 and pipe.balanced(x) is None for x in inputs)
+                    ctx.fail("unparsable-filtered" if dropped_known else "cli-rows-lost", {"form": "cli", "inputs": inputs}, {"rows": len(got)})
         if not ctx.quick():
             inputs = ["C>>C", "XX>>C", "CC>>CC"]
             pc = os.path.join(tmp, "real.csv")
